@@ -67,17 +67,17 @@ def mkSchema (st : DState) (id : String) : Option SchemaCfg :=
 
 def hexO (b : Bytes) : String := Hex.encode b
 
-def showView (v : View) (ret : Ret) : String :=
+def showView (v : View) (ret : Ret) (pending : Bytes := []) : String :=
   let s := s!"ret={if ret.ok then 1 else 0}"
   let s := if ret.text ≠ [] then s ++ s!" text={hexO ret.text}" else s
-  let s := s ++ s!" input={hexO v.input} caret={v.caret} composing={if v.composing then 1 else 0}"
+  let s := s ++ s!" input={hexO v.input} caret={v.caret} composing={if v.composing then 1 else 0} pending={hexO pending}"
   let s := match v.preedit with
     | some p => s ++ s!" preedit={hexO p.text} len={p.text.length} cur={p.caretPos} sel={p.selStart},{p.selEnd}"
     | none => s ++ " preedit=~"
   let s := s ++ s!" preview={hexO v.preview}"
   match v.menu with
   | some m =>
-    let cs := String.intercalate "|" (m.cands.map (fun c => s!"{hexO c.text}:{hexO c.comment}"))
+    let cs := String.intercalate "|" (m.cands.map (fun c => s!"{hexO c.text}:{hexO c.comment}:{c.stop}"))
     s ++ s!" menu={m.pageSize},{m.pageNo},{if m.isLast then 1 else 0},{m.highlighted},{m.cands.length},[{cs}]"
   | none => s ++ " menu=~"
 
@@ -109,7 +109,7 @@ def parseOp (ws : List String) : Option Op :=
   | ["read_commit"] => pure .getCommit
   | _ => none
 
-def deadLine (ret : Nat) : String := s!"ret={ret} input=- caret=0 composing=0 nocontext"
+def deadLine (ret : Nat) : String := s!"ret={ret} input=- caret=0 composing=0 pending=- nocontext"
 
 def step (st : DState) (line : String) : DState × Option String :=
   let ws := (line.trimAscii.toString.splitOn " ").filter (· ≠ "")
@@ -130,7 +130,7 @@ def step (st : DState) (line : String) : DState × Option String :=
       | some sc =>
         let c := freshCtx sc none
         let st := { st with sessions := st.sessions.push (some (c, id)), cur := st.sessions.size }
-        (st, some (showView (view sc.env c) ⟨true, []⟩))
+        (st, some (showView (view sc.env c) ⟨true, []⟩ c.commitBuf))
   | ["use", k] =>
     match k.toNat? with
     | none => (st, some "bad-op")
@@ -139,7 +139,7 @@ def step (st : DState) (line : String) : DState × Option String :=
       match st.sessions[k]? with
       | some (some (c, id)) =>
         match mkSchema st id with
-        | some sc => (st, some (showView (view sc.env c) ⟨true, []⟩))
+        | some sc => (st, some (showView (view sc.env c) ⟨true, []⟩ c.commitBuf))
         | none => (st, some "bad-op")
       | _ => (st, some (deadLine 1))
   | ["destroy", k] =>
@@ -152,14 +152,14 @@ def step (st : DState) (line : String) : DState × Option String :=
         match st.sessions[st.cur]? with
         | some (some (c, id)) =>
           match mkSchema st id with
-          | some sc => (st, some (showView (view sc.env c) ⟨true, []⟩))
+          | some sc => (st, some (showView (view sc.env c) ⟨true, []⟩ c.commitBuf))
           | none => (st, some "bad-op")
         | _ => (st, some (deadLine 1))
       | _ =>
         match st.sessions[st.cur]? with
         | some (some (c, id)) =>
           match mkSchema st id with
-          | some sc => (st, some (showView (view sc.env c) ⟨false, []⟩))
+          | some sc => (st, some (showView (view sc.env c) ⟨false, []⟩ c.commitBuf))
           | none => (st, some "bad-op")
         | _ => (st, some (deadLine 0))
   | ["schema", id] =>
@@ -169,7 +169,7 @@ def step (st : DState) (line : String) : DState × Option String :=
       | none => (st, some "bad-op")
       | some sc =>
         let c1 := freshCtx sc (some c)
-        ({ st with sessions := st.sessions.set! st.cur (some (c1, id)) }, some (showView (view sc.env c1) ⟨true, []⟩))
+        ({ st with sessions := st.sessions.set! st.cur (some (c1, id)) }, some (showView (view sc.env c1) ⟨true, []⟩ c1.commitBuf))
     | _ => (st, some (deadLine 0))
   | _ =>
     match parseOp ws with
@@ -181,7 +181,7 @@ def step (st : DState) (line : String) : DState × Option String :=
         | none => (st, some "bad-op")
         | some sc =>
           let (c1, r) := apiStep sc.env c op
-          ({ st with sessions := st.sessions.set! st.cur (some (c1, id)) }, some (showView (view sc.env c1) r))
+          ({ st with sessions := st.sessions.set! st.cur (some (c1, id)) }, some (showView (view sc.env c1) r c1.commitBuf))
       | _ =>
         -- dead / never-issued session id: every call is refused
         let ret := match op with | .setCaret _ | .setOption _ _ | .clearComposition => 1 | _ => 0
